@@ -110,7 +110,10 @@ class Box:
                 stride = strides[1]
                 skirt_top_remainder = skirt[0] % upscaling_factor
 
-                total_stride = stride * (new_end_coord[-3] - new_start_coord[-3] - 1)
+                # Count the rows of the OFM box: its end has been clipped to the IFM height above, and an OFM can be
+                # taller than its IFM when explicit padding is larger than the kernel needs for SAME
+                ofm_end = original_end_coord[-3] if upscaling_factor == 1 else new_end_coord[-3]
+                total_stride = stride * (ofm_end - new_start_coord[-3] - 1)
                 new_start_coord[-3] = new_start_coord[-3] * stride - skirt[0] + skirt_top_remainder
 
                 pad_top = max(0, 0 - new_start_coord[-3]) + skirt_top_remainder
